@@ -3,7 +3,7 @@
    contract, any triggers, all label sequences (see Props/C03.v for the transition system). *)
 From Coq Require Import ZArith List Bool String.
 Require Import QzSched.Gen.Params QzSched.SchedModel QzSched.ListQueue QzSched.Triggers QzSched.LtsDefs
-               QzSched.ApiProofs QzSched.FetchProofs QzSched.C03Proofs QzSched.C08Proofs QzSched.C04Proofs QzSched.ExamplesC09 QzSched.Examples.
+               QzSched.ApiProofs QzSched.FetchProofs QzSched.C03Proofs QzSched.C08Proofs QzSched.C04Proofs QzSched.ExampleDefs QzSched.Examples.
 Import ListNotations.
 Open Scope list_scope.
 Open Scope Z_scope.
